@@ -19,8 +19,8 @@ def I(x):
         raise Unsupported('non-integer value %r' % (x,))
     return int(round(x))
 
-def project(problem, matrices, solution, rec_id='', extra=None):
-    P, S = problem, solution
+def project_problem(problem, matrices):
+    P = problem
     profiles = [p['name'] for p in P['fleet']['profiles']]
     n = None
     pm = {}
@@ -109,6 +109,25 @@ def project(problem, matrices, solution, rec_id='', extra=None):
                 'maxDur': I(lim['maxDuration']) if lim.get('maxDuration') is not None else -1,
                 'tourSize': lim['tourSize'] if lim.get('tourSize') is not None else -1})
 
+    def all_objectives(objs):
+        for o in objs or []:
+            yield o['type']
+    has_order = any(t['order'] > 0 for j in jobs for t in j['tasks'])
+    soft = 'tour-order' in set(all_objectives(P.get('objectives')))
+    rels = []
+    for r in (P['plan'].get('relations') or []):
+        rels.append({'type': r['type'], 'vehicle': r['vehicleId'], 'shift': (r.get('shiftIndex') or 0) + 1,
+                     'jobs': [{'id': x, 'jix': jidx.get(x, 0)} for x in r['jobs']]})
+    prob = {'n': n, 'ndims': ndims, 'dur': dur, 'dist': dist, 'jobs': jobs, 'vehicles': vehicles, 'relations': rels,
+            'hardOrder': bool(has_order and not soft)}
+    ctx = {'lix': lix, 'T': T, 'jidx': jidx, 'vidx': vidx}
+    return prob, ctx
+
+
+def project_solution(solution, ctx):
+    S = solution
+    lix, T, jidx, vidx = ctx['lix'], ctx['T'], ctx['jidx'], ctx['vidx']
+
     def stat(s):
         t = s['times']
         if t.get('commuting') or t.get('parking'):
@@ -137,21 +156,14 @@ def project(problem, matrices, solution, rec_id='', extra=None):
                       'stops': stops, 'flat': flat, 'stat': stat(t['statistic'])})
     un = [{'job': u['jobId'], 'jix': jidx.get(u['jobId'], 0), 'nreasons': len(u['reasons'])} for u in S.get('unassigned') or []]
     viol = [{'vehicle': v.get('vehicleId', v.get('vehicle_id')), 'shift': v.get('shiftIndex', v.get('shift_index')) + 1} for v in S.get('violations') or []]
-    rels = []
-    for r in (P['plan'].get('relations') or []):
-        rels.append({'type': r['type'], 'vehicle': r['vehicleId'], 'shift': (r.get('shiftIndex') or 0) + 1,
-                     'jobs': [{'id': x, 'jix': jidx.get(x, 0)} for x in r['jobs']]})
+    return {'tours': tours, 'unassigned': un, 'violations': viol, 'stat': stat(S['statistic'])}
 
-    def all_objectives(objs):
-        for o in objs or []:
-            yield o['type']
-            if o['type'] == 'multi-objective':
-                pass  # nested objectives are not top-level features (see goal_reader)
-    has_order = any(t['order'] > 0 for j in jobs for t in j['tasks'])
-    soft = 'tour-order' in set(all_objectives(P.get('objectives')))
-    rec = {'id': rec_id, 'n': n, 'ndims': ndims, 'dur': dur, 'dist': dist, 'jobs': jobs, 'vehicles': vehicles,
-           'tours': tours, 'unassigned': un, 'violations': viol, 'relations': rels, 'stat': stat(S['statistic']),
-           'hardOrder': bool(has_order and not soft)}
+
+def project(problem, matrices, solution, rec_id='', extra=None):
+    prob, ctx = project_problem(problem, matrices)
+    rec = {'id': rec_id}
+    rec.update(prob)
+    rec.update(project_solution(solution, ctx))
     if extra:
         rec.update(extra)
     return rec
